@@ -28,15 +28,25 @@ def gen_cfg(rng, k_samplers=None):
     # with the RL scheduler the first batch comes from the line-up's own Halton sampler when it has one: it too must provide enough points for a
     # best-batch sampler that the agent may choose next (the library rejects that configuration with a ValueError — a user error, not the subject here)
     lineup = [(nm, max(bs, 2) if nm == "HaltonSampler" else bs, cs) for (nm, bs, cs) in lineup]
-    return {"lineup": lineup, "dims": rng.randint(1, 4), "loss": rng.choice(twin.LOSSES), "ensemble": rng.randint(1, 3),
-            "seed": rng.randrange(10 ** 6), "n_jobs": 1}
+    cfg = {"lineup": lineup, "dims": rng.randint(1, 4), "loss": rng.choice(twin.LOSSES), "ensemble": rng.randint(1, 3),
+           "seed": rng.randrange(10 ** 6), "n_jobs": 1}
+    if cfg["loss"].startswith(("msm", "likelihood", "gsl")) and rng.random() < 0.6:
+        # simulations longer or shorter than the real series (admissible: the constructor only warns); losses that compare summaries, not points
+        cfg["sim_length"] = rng.choice([16, 30, 40])
+    return cfg
 
 
 def check_cfg(chk, cfg, n, comps, label):
     base, rets, _ = twin.run_segments(cfg, [(n, "end")], use_folder=True)
     for comp in comps:
         twin.RESTORE_DIFFS.clear()
-        h, r, _ = twin.run_segments(cfg, comp)
+        try:
+            h, r, _ = twin.run_segments(cfg, comp)
+        except Exception as e:  # noqa: BLE001  (the uninterrupted run completed: an exception here is a difference between stopping and not stopping)
+            chk.case([cfg, comp], len(comp) >= 2, {"lineup": [x[0] for x in cfg["lineup"]], "loss": cfg["loss"], "total_batches": n, "segments": comp, "raised": type(e).__name__})
+            chk.fail(f"the run cut into {comp} raised {type(e).__name__}: {str(e)[:120]} while the uninterrupted run of {n} batches completed"
+                     + (f" (sim_length {cfg['sim_length']})" if cfg.get("sim_length") else ""), {"case": {"cfg": cfg, "n": n, "segments": comp}})
+            continue
         bad = twin.same_history(base, h)
         if twin.RESTORE_DIFFS:
             # the restored object already differs from the one that was saved (generator buffers, sampler internals ...):
